@@ -32,10 +32,12 @@ def A(base, *names):
 
 
 def strip_versions(t):
-    """Drop the container-version wrapper (guards are compared against version-free expected forms)."""
-    if isinstance(t, App) and t.fn == '@v':
-        return strip_versions(t.args[0])
-    return t
+    """Drop the container-version ('@v') and state-epoch ('@t') wrappers: guards and targets are compared against
+    version-free expected forms."""
+    from sa.terms import strip_epochs
+    if t is None:
+        return None
+    return strip_epochs(t)
 
 
 # ---------------------------------------------------------------------------------------------- R-ATOMIC
